@@ -55,22 +55,22 @@ type Event struct {
 }
 
 type Sched struct {
-	mu       sync.Mutex
-	threads  []*Thread
-	byGoid   map[int64]*Thread
-	cur      *Thread
-	yielded  chan *Thread
-	Step     int   // logical clock: incremented at every mark
-	Choices  []int // thread ids chosen, in order
-	NEnabled []int // number of enabled threads at each choice
-	Log      []Event
-	LogOn    bool
-	Deadlock bool // some thread waits for a lock nobody will release
-	Quiesced bool // threads remain parked in Cond/WaitGroup waits only
-	Stuck    bool // a thread did not come back within the watchdog (uncontrolled blocking)
-	Watchdog time.Duration
+	mu                sync.Mutex
+	threads           []*Thread
+	byGoid            map[int64]*Thread
+	cur               *Thread
+	yielded           chan *Thread
+	Step              int   // logical clock: incremented at every mark
+	Choices           []int // thread ids chosen, in order
+	NEnabled          []int // number of enabled threads at each choice
+	Log               []Event
+	LogOn             bool
+	Deadlock          bool // some thread waits for a lock nobody will release
+	Quiesced          bool // threads remain parked in Cond/WaitGroup waits only
+	Stuck             bool // a thread did not come back within the watchdog (uncontrolled blocking)
+	Watchdog          time.Duration
 	YieldOnBareAccess bool
-	aborting atomic.Bool
+	aborting          atomic.Bool
 }
 
 var cur atomic.Pointer[Sched]
@@ -492,10 +492,22 @@ func Run(bodies []func(), choose Chooser, logOn bool) *Result {
 // Explore enumerates schedules depth first by stateless re-execution. mk must
 // build a fresh program (fresh objects) every time. visit returns false to
 // stop. pb < 0: no preemption bound; otherwise at most pb preemptions
-// (switching away from a thread that could have continued). max bounds the
-// number of executions (0 = unbounded). Returns the number of executions and
-// whether the tree was exhausted.
+// (switching away from a thread that could have continued; switches at
+// blocking points are free). max bounds the number of executions (0 =
+// unbounded). Returns the number of executions and whether the tree was
+// exhausted.
 func Explore(mk func() []func(), pb int, max int, logOn bool, visit func(*Result) bool) (int, bool) {
+	return exploreWith(pb, max, logOn, func(run func([]func()) *Result) bool { return visit(run(mk())) })
+}
+
+// ExploreWith is Explore with the roles reversed: body is called once per
+// schedule with a run function that executes the thread bodies it is given
+// under the schedule of this iteration; body returns false to stop.
+func ExploreWith(pb int, max int, body func(run func([]func()) *Result) bool) (int, bool) {
+	return exploreWith(pb, max, false, body)
+}
+
+func exploreWith(pb int, max int, logOn bool, body func(run func([]func()) *Result) bool) (int, bool) {
 	// one frame per real choice: the alternatives in the order they are tried (the default - let the
 	// running thread continue, else the lowest id - first), the position reached, preemptions before it
 	type frame struct {
@@ -510,38 +522,45 @@ func Explore(mk func() []func(), pb int, max int, logOn bool, visit func(*Result
 		prefix := stack
 		var frames []frame
 		pre := 0
-		res := Run(mk(), func(step int, en []int, ci int) int {
-			var f frame
-			if step < len(prefix) {
-				f = prefix[step]
-				if len(f.order) != len(en) {
-					// the program is not deterministic under the scheduler: give up on this branch
-					f = frame{}
-				}
+		ran := false
+		cont := body(func(bodies []func()) *Result {
+			if ran {
+				panic("vsync: run called twice in one iteration")
 			}
-			if f.order == nil {
-				def := 0
-				if ci >= 0 {
-					def = ci
-				}
-				f.order = []int{def}
-				for c := 0; c < len(en); c++ {
-					if c != def {
-						f.order = append(f.order, c)
+			ran = true
+			return Run(bodies, func(step int, en []int, ci int) int {
+				var f frame
+				if step < len(prefix) {
+					f = prefix[step]
+					if len(f.order) != len(en) {
+						// the program is not deterministic under the scheduler: give up on this branch
+						f = frame{}
 					}
 				}
-				f.pos, f.cur = 0, ci
-			}
-			f.pre = pre
-			k := f.order[f.pos]
-			if ci >= 0 && k != ci {
-				pre++
-			}
-			frames = append(frames, f)
-			return k
-		}, logOn)
+				if f.order == nil {
+					def := 0
+					if ci >= 0 {
+						def = ci
+					}
+					f.order = []int{def}
+					for c := 0; c < len(en); c++ {
+						if c != def {
+							f.order = append(f.order, c)
+						}
+					}
+					f.pos, f.cur = 0, ci
+				}
+				f.pre = pre
+				k := f.order[f.pos]
+				if ci >= 0 && k != ci {
+					pre++
+				}
+				frames = append(frames, f)
+				return k
+			}, logOn)
+		})
 		runs++
-		if !visit(res) {
+		if !cont {
 			return runs, false
 		}
 		if max > 0 && runs >= max {
